@@ -36,7 +36,7 @@ def populate(d, names, tag):
         p = os.path.join(d, n)
         if n in ('__init__.py', '__pycache__'):
             continue
-        if os.path.isdir(p):
+        if os.path.isdir(p) and not os.path.islink(p):
             shutil.rmtree(p)
         else:
             os.unlink(p)
@@ -65,6 +65,8 @@ def run_lookup(work, cases):
             roots = None if c['fs'] is None else [c['fs']] + list(c.get('fs_more') or [])
             for i, u in enumerate(users):
                 populate(u, roots[i] if roots is not None and i < len(roots) else [], 'U%d' % i)
+            for rel in (c.get('dangling') or []):     # names listed by the loader that cannot be loaded (first user dir)
+                os.symlink(os.path.join(work, 'no-such-target', rel), os.path.join(users[0], rel))
             populate(pk, c['pkg'], 'P')
             loader = DSDLTemplateLoader(
                 templates_dirs=[pathlib.Path(u) for u in users[:len(roots)]] if roots is not None else None,
@@ -181,6 +183,11 @@ def run_tests(work):
             env_missing[lang] = sorted(n for n in table if n not in g._env.tests)
             if env_tests is None:
                 env_tests = g._env.tests
+            else:   # the same truth values through every language's environment
+                for v in vals:
+                    for n in table:
+                        if n in g._env.tests and n in env_tests and bool(g._env.tests[n](v)) != bool(env_tests[n](v)):
+                            env_missing[lang].append('<%s differs from the first language on a %s>' % (n, type(v).__name__))
         except Exception as ex:  # noqa
             env_missing[lang] = ['<error: %r>' % (ex,)]
     use = env_tests if env_tests is not None else table
